@@ -99,7 +99,7 @@ def delay_plans(case, dry, mod, tier, rng):
         rep = [[[role, qn, rel, o, "sleep", t]] for role, qn, rel, n in sorted(asites) if n > 1 for o in sorted({1, n})]
         once = [[[role, qn, rel, 1, "sleep", t]] for role, qn, rel, n in sorted(asites) if n == 1]
         if tier == "quick":
-            rep = rng.sample(rep, min(len(rep), 24))
+            rep = rng.sample(rep, min(len(rep), getattr(mod, "INSTR_AUTO_SAMPLE", 24)))
             once = rng.sample(once, min(len(once), 6))
         plans.extend(rep + once)
     # source-free failpoints: an OSError (EMFILE) raised at each statement of the listed functions, first occurrence,
